@@ -85,7 +85,60 @@ def run(name, ids=None):
     return 0
 
 
+def matrix(names):
+    """every seed x every check, in scratch worktrees (CFI_REPO) with a separate scratch/evidence dir: informational"""
+    man = json.load(open(os.path.join(VERIF, "MANIFEST.json")))
+    all_ids = [c["property_id"] for c in man["checks"]]
+    names = names or sorted(os.listdir(os.path.join(VERIF, "seeded")))
+    scratch = "/tmp/mx_scratch"
+    for name in names:
+        d = os.path.join(VERIF, "seeded", name)
+        if not os.path.isdir(d) or not os.path.exists(os.path.join(d, "meta.json")):
+            continue
+        wt = "/tmp/mx_" + name
+        sh("git -C /repo worktree remove --force %s" % wt)
+        rc, out = sh("git -C /repo worktree add -q --detach %s HEAD" % wt)
+        rc, out = sh("git apply %s" % os.path.join(d, "patch.diff"), cwd=wt)
+        if rc != 0:
+            print(name, "patch does not apply", out); continue
+        meta = json.load(open(os.path.join(d, "meta.json")))
+        res = meta.setdefault("matrix", {})
+        for pid in all_ids:
+            rc, out = sh("./check %s --tier quick" % pid, cwd=VERIF, timeout=3600,
+                         env={"CFI_REPO": wt, "VERIF_SCRATCH": scratch, "VERIF_EVIDENCE_DIR": scratch + "/evidence"})
+            viol = [l for l in out.splitlines() if l.startswith("VIOLATION")]
+            res[pid] = {"exit": rc, "no_failing_input": bool(viol) and all("no-failing-input-found" in l for l in viol)}
+        meta["matrix_caught_by"] = sorted(p for p, r in res.items() if r["exit"] != 0)
+        json.dump(meta, open(os.path.join(d, "meta.json"), "w"), indent=1)
+        print(name, "caught by", meta["matrix_caught_by"], flush=True)
+        sh("git -C /repo worktree remove --force %s" % wt)
+    shutil.rmtree(scratch, ignore_errors=True)
+    return 0
+
+
+def summary():
+    rows = []
+    for name in sorted(os.listdir(os.path.join(VERIF, "seeded"))):
+        f = os.path.join(VERIF, "seeded", name, "meta.json")
+        if not os.path.exists(f):
+            continue
+        m = json.load(open(f))
+        tgt = m["property"]
+        r = m.get("checks_run", {}).get(tgt, {})
+        rows.append("| %s | %s | %s | %s | %s |" % (name, tgt, (m.get("summary", "") or "").replace("|", "/")[:160],
+                    ("yes" + (" (no-failing-input-found)" if r.get("no_failing_input") else "")) if r.get("exit") else "NO",
+                    ", ".join(m.get("matrix_caught_by", [])) or "-"))
+    txt = "# Seeded changes and the checks that catch them\n\nGenerated by `harness/seedtool.py summary`. A seed is kept only after `verify` confirmed: tests pass with it, its demonstration exits 1 with it and 0 without it.\n\n| seed | property | change | caught by its target check (patch applied to /repo) | all checks that raise VIOLATION (matrix run in a scratch worktree) |\n|---|---|---|---|---|\n" + "\n".join(rows) + "\n"
+    open(os.path.join(VERIF, "seeded", "SUMMARY.md"), "w").write(txt)
+    print(txt)
+    return 0
+
+
 if __name__ == "__main__":
+    if sys.argv[1] == "matrix":
+        sys.exit(matrix(sys.argv[2:]))
+    if sys.argv[1] == "summary":
+        sys.exit(summary())
     if sys.argv[1] == "verify":
         sys.exit(verify(sys.argv[2], sys.argv[3] if len(sys.argv) > 3 else ""))
     sys.exit(run(sys.argv[2], sys.argv[3:]))
